@@ -81,11 +81,12 @@ func checkC07(p *Prog, r *Report) {
 }
 
 // checkPrefixPruning implements R8b.
-func checkPrefixPruning(p *Prog, r *Report, pc *panicChecker, f *ssa.Function) {
-	bf := pc.bf(f)
-	// separators used to split items of a string list in f
+func checkPrefixPruning(p *Prog, r *Report, pc *panicChecker, f0 *ssa.Function) {
+	scope := append([]*ssa.Function{f0}, stringHelpers(f0)...)
+	// separators used to split items of a string list in the function and the
+	// phase helpers it calls
 	seps := map[string]bool{}
-	eachInstr(f, func(ins ssa.Instruction) {
+	eachInstrOf(scope, func(ins ssa.Instruction) {
 		if c, ok := ins.(*ssa.Call); ok {
 			if sc := c.Common().StaticCallee(); sc != nil && fullName(sc) == "strings.Split" {
 				if s, ok := constString(c.Common().Args[1]); ok {
@@ -94,6 +95,15 @@ func checkPrefixPruning(p *Prog, r *Report, pc *panicChecker, f *ssa.Function) {
 			}
 		}
 	})
+	n := 0
+	for _, f := range scope {
+		n += checkPrefixPruning1(p, r, pc, f, seps)
+	}
+	r.floor("prefix tests between list items", n, 1)
+}
+
+func checkPrefixPruning1(p *Prog, r *Report, pc *panicChecker, f *ssa.Function, seps map[string]bool) int {
+	bf := pc.bf(f)
 	n := 0
 	eachInstr(f, func(ins ssa.Instruction) {
 		c, ok := ins.(*ssa.Call)
@@ -135,7 +145,7 @@ func checkPrefixPruning(p *Prog, r *Report, pc *panicChecker, f *ssa.Function) {
 			"the shorter item is compared together with the delimiter "+sep,
 			"an item of the list is pruned when another item merely starts with the same characters (no delimiter in the test): \"author\" is dropped in favour of \"authors\" although it is not a prefix of that path")
 	})
-	r.floor("prefix tests between list items", n, 1)
+	return n
 }
 
 // sameListVar: both values are versions of the same slice variable (equal, or
@@ -759,7 +769,15 @@ func isRangeKeyOfField(v ssa.Value, owner, field string) bool {
 }
 
 // checkIncludeChain implements C07.include-chain.
-func checkIncludeChain(p *Prog, r *Report, f *ssa.Function) {
+func checkIncludeChain(p *Prog, r *Report, f0 *ssa.Function) {
+	n := 0
+	for _, f := range append([]*ssa.Function{f0}, stringHelpers(f0)...) {
+		n += checkIncludeChain1(p, r, f)
+	}
+	r.floor("chain lookups GetType(rel.ToType) in loops", n, 2)
+}
+
+func checkIncludeChain1(p *Prog, r *Report, f *ssa.Function) int {
 	isGetType := func(v ssa.Value) *ssa.Call {
 		c, _ := callOf(v)
 		if c == nil {
@@ -835,7 +853,7 @@ func checkIncludeChain(p *Prog, r *Report, f *ssa.Function) {
 			"the relationship variable is advanced with the relationship found in the current type before the next lookup",
 			"the type for the next word of an inclusion path is taken from a relationship variable that the loop never updates with the relationship it just found: every word is resolved against the same type, so valid nested paths are rejected and invalid ones accepted")
 	})
-	r.floor("chain lookups GetType(rel.ToType) in loops", n, 2)
+	return n
 }
 
 // innermostLoop: the smallest natural loop of the function that contains b.
@@ -938,7 +956,7 @@ func checkFieldsDefault(p *Prog, r *Report, prefix string) {
 // the relationship), not in the target type.
 func checkCollectionDetection(p *Prog, r *Report, f *ssa.Function) {
 	n := 0
-	eachInstr(f, func(ins ssa.Instruction) {
+	eachInstrOf(append([]*ssa.Function{f}, stringHelpers(f)...), func(ins ssa.Instruction) {
 		lk, ok := ins.(*ssa.Lookup)
 		if !ok {
 			return
@@ -958,7 +976,11 @@ func checkCollectionDetection(p *Prog, r *Report, f *ssa.Function) {
 				return 0, false, false
 			}
 			if _, f2, ok := fieldLoad(ia.X); !ok || f2 != "Fragments" {
-				return 0, false, false
+				// or a helper's parameter that every call binds to the fragments
+				prm, isPrm := ia.X.(*ssa.Parameter)
+				if !isPrm || !paramBoundToField(p, prm, "Fragments") {
+					return 0, false, false
+				}
 			}
 			if k, isC := constInt(ia.Index); isC {
 				return k, false, true
@@ -1091,4 +1113,32 @@ func checkFieldsFresh(p *Prog, r *Report, prefix string) {
 			"the list stored for a type in Params.Fields goes back to "+why+": the selections of two types share one backing array, and filling the second overwrites the first")
 	})
 	r.floor(prefix+": writes to params.Fields inside loops", n, 2)
+}
+
+// paramBoundToField: prm is a parameter of a small helper that is only called
+// directly, and every call passes a load of the named field.
+func paramBoundToField(p *Prog, prm *ssa.Parameter, field string) bool {
+	g := prm.Parent()
+	if g == nil || !smallHelper(g) {
+		return false
+	}
+	idx := -1
+	for i, q := range g.Params {
+		if q == prm {
+			idx = i
+		}
+	}
+	calls := p.cg.callers[g]
+	if idx < 0 || len(calls) == 0 {
+		return false
+	}
+	for _, c := range calls {
+		if c.Common().IsInvoke() || c.Common().StaticCallee() != g || idx >= len(c.Common().Args) {
+			return false
+		}
+		if _, fl, ok := fieldLoad(c.Common().Args[idx]); !ok || fl != field {
+			return false
+		}
+	}
+	return true
 }
